@@ -24,6 +24,14 @@ def do_aug(o, d):
     o.x += d
 
 
+def do_aug_hashkey(holder, d):
+    holder['#tag'].x += d
+
+
+def do_aug_hashkey2(holder, d):
+    holder["#id"].x -= -d
+
+
 def do_aug_two_lines(o, d):
     o.x += \
         d
